@@ -12,7 +12,7 @@ ENUM_VALUE_NAMES = ["A", "B", "C", "D", "RED", "a"]
 DEFAULT_KNOBS = dict(
     max_objects=5, max_interfaces=2, max_unions=2, max_enums=2, max_inputs=3, max_custom_scalars=2,
     max_fields=5, max_args=3, mutation_pct=35, subscription_pct=0, default_impl_pct=30,
-    wrap_depth=3, arg_pct=45, root_default_impl=False, lag_pct=0,
+    wrap_depth=3, arg_pct=45, root_default_impl=False, lag_pct=0, rename_roots_pct=0, subscription_default_impl_pct=0,
 )
 
 
@@ -178,6 +178,22 @@ def gen_schema(tape, knobs=None, stream="schema"):
         for fname in t.shuffle(FIELD_NAMES)[: t.rint(1, 3)]:
             sub.fields[fname] = gen_field(fname, root=True)
             sub.fields[fname].impl = "resolver"
+            if t.chance(k["subscription_default_impl_pct"]) and not is_nn(sub.fields[fname].type):
+                # no @Resolver on the subscription field: the default resolver reads the event payload
+                sub.fields[fname].impl = "key"
+    if t.chance(k["rename_roots_pct"]):
+        # custom root type names: need an explicit `schema { ... }` definition
+        for old, new, attr in (("Query", "QRoot", "query"), ("Mutation", "MRoot", "mutation"), ("Subscription", "SRoot", "subscription")):
+            if getattr(s, attr) == old and old in s.types:
+                items = list(s.types.items())
+                s.types.clear()
+                for n, td in items:
+                    if n == old:
+                        td.name = new
+                        n = new
+                    s.types[n] = td
+                setattr(s, attr, new)
+        s.explicit_schema_def = True
     if k["lag_pct"]:
         # a pass-through directive whose hooks suspend: puts scheduler points inside argument,
         # input-object and variable coercion (where the engine gathers)
